@@ -132,7 +132,6 @@ Qed.
 (* a bracket character that the literal scanner refuses becomes a Bracket token *)
 Lemma consume_bracket ctx prev (c : N) (r : list N) b :
   (c =? c_dollar) = false -> is_space c = false -> is_allowed_repeater c ctx = false ->
-  (forall e, lit (cquote ctx) (cattr ctx) (cexpr ctx) (cexpr ctx) prev false (c :: r) = ([], O, e) -> True) ->
   (exists e, lit (cquote ctx) (cattr ctx) (cexpr ctx) (cexpr ctx) prev false (c :: r) = ([], O, e)) ->
   operator_type c = None -> is_quote c = false -> bracket_type c = Some b ->
   consume ctx prev (c :: r) =
@@ -144,7 +143,7 @@ Lemma consume_bracket ctx prev (c : N) (r : list N) b :
      | BExpr => mkCtx (cgroup ctx) (cattr ctx) (cexpr ctx + d) (cquote ctx)
      end).
 Proof.
-  intros Hd Hs Hr _ [e Hl] Ho Hq Hb. unfold consume.
+  intros Hd Hs Hr [e Hl] Ho Hq Hb. unfold consume.
   rewrite (field_none ctx c r Hd); cbn [orelse]. rewrite (rp_none c r Hd); cbn [orelse].
   rewrite (rn_none c r Hd); cbn [orelse]. rewrite (repeater_none ctx c r Hr); cbn [orelse].
   rewrite (ws_none c r Hs). rewrite Hl. unfold operator, quote, bracket. rewrite Ho, Hq, Hb. cbn [orelse]. reflexivity.
@@ -399,4 +398,52 @@ Proof.
     + rewrite tcons_app. f_equal.
       etransitivity; [apply (toks_body b B' rest g a _ _ HB Hb)|].
       rewrite Nat.add_assoc. reflexivity.
+Qed.
+
+(* ---------------------------------------------------------------- tokenize (name ++ "{" ++ T ++ "}") *)
+Definition name_ok (name : str) : Prop := name <> [] /\ Forall name_char name.
+
+Definition text_abbr_tokens (name T : str) : list token :=
+  let n := length name in
+  [mkTok (TLiteral name) 0 n; mkTok (TBracket true BExpr) n (n + 1)]
+  ++ text_tokens (n + 1) T
+  ++ [mkTok (TBracket false BExpr) (n + 1 + length T) (n + 1 + length T + 1)].
+
+Lemma lit_stops_at_rbrace prev a rest : lit None a 1 1 prev false (c_rbrace :: rest) = ([], O, 1%Z).
+Proof. exact (lit_text [] 0 1 prev a rest ltac:(lia) eq_refl). Qed.
+
+Theorem tokenize_text name T :
+  name_ok name -> bal 0 T = true ->
+  tokenize (name ++ c_lbrace :: T ++ [c_rbrace]) = TOk (text_abbr_tokens name T).
+Proof.
+  intros [Hne HF] Hb. unfold tokenize, text_abbr_tokens.
+  destruct name as [|c name']; [congruence|].
+  inversion HF as [|x y Hc HF']; subst.
+  destruct (name_char_facts c Hc) as [H1 [H2 [H3 [H4 [H5 [H6 H7]]]]]].
+  (* the name *)
+  cbn [app]. etransitivity.
+  { apply toks_token.
+    apply (consume_plain ctx0 None c (name' ++ c_lbrace :: T ++ [c_rbrace]) H2 H4).
+    - unfold is_allowed_repeater. rewrite H5. reflexivity.
+    - exact (lit_name (c :: name') None (T ++ [c_rbrace]) HF). }
+  cbn [cgroup cattr cquote ctx0].
+  (* the opening brace *)
+  etransitivity.
+  { apply f_equal. apply (toks_token (mkCtx 0 0 0 None) _ _ c_lbrace [] (T ++ [c_rbrace])).
+    apply consume_bracket; try reflexivity.
+    eexists. apply lit_stops_at_lbrace. }
+  cbn [is_open_bracket cgroup cattr cexpr cquote length].
+  change (c_lbrace =? c_lbrace) with true. cbn [orb].
+  change (0 + 1)%Z with 1%Z.
+  (* the payload *)
+  etransitivity.
+  { apply f_equal. apply f_equal. apply (toks_text T [] 0 0 _ _ Hb). }
+  (* the closing brace *)
+  etransitivity.
+  { apply f_equal. apply f_equal. apply f_equal.
+    apply (toks_token (mkCtx 0 0 1 None) _ _ c_rbrace [] []).
+    apply consume_bracket; try reflexivity.
+    eexists. apply lit_stops_at_rbrace. }
+  cbn [toks tcons app length].
+  repeat (f_equal; try lia).
 Qed.
